@@ -21,6 +21,9 @@ def load_lock():
     return {}
 
 
+PROOF_ARTIFACT_KINDS = ('invariant-init', 'invariant-preserved', 'loop-frame', 'variant-decreases')
+
+
 def run_property(pid, tier, seed, only_bounded=None, write=True, quiet=False):
     """Returns (exit_code, summary dict)."""
     timer = Timer()
@@ -29,6 +32,7 @@ def run_property(pid, tier, seed, only_bounded=None, write=True, quiet=False):
     lock = load_lock().get(pid, {})
     findings = load_known_findings()
     violations, undecided, errors = [], [], []
+    not_reestablished = []      # proofs of changed functions that could not be redone (no verdict of the deductive tier; not an alarm)
     obligations, finite_obl, bounded_items = [], [], []
     functions = []
     covers = []
@@ -53,7 +57,16 @@ def run_property(pid, tier, seed, only_bounded=None, write=True, quiet=False):
             functions = res['functions']
             assumptions += res.get('assumptions', [])
             errors += res.get('errors', [])
-            undecided += res.get('outside_subset', [])
+            od = dict(res.get('outside_detail', []))
+            for msg in res.get('outside_subset', []):
+                qual = msg.split(': outside the verified subset')[0]
+                locked = set(sha for name, sha in lock.items() if name.startswith(qual + '::'))
+                if locked and od.get(qual) is not None and od[qual] not in locked:
+                    # the function was inside the subset on the reference tree and its text has changed: the deductive tier has
+                    # nothing to say about the new text (neither proof nor refutation); the bounded tier decides
+                    not_reestablished.append(msg + ' — changed since the reference tree; decided by the bounded tier only')
+                else:
+                    undecided.append(msg)
             covers = res.get('covers', [])
         except Exception:
             errors.append('pyvc: ' + traceback.format_exc())
@@ -107,6 +120,11 @@ def run_property(pid, tier, seed, only_bounded=None, write=True, quiet=False):
             if o.get('witness') is None:
                 v.input = dict(no_failing_input_found=True, obligation=o['name'])
             violations.append(v)
+        elif o['name'] in lock and changed and tierc == 'P' and o.get('kind') in PROOF_ARTIFACT_KINDS and o['status'] != 'sat':
+            # the sidecar invariant of a loop no longer fits the (changed) loop: the invariant is part of the proof, not of the
+            # property — a different loop may still establish the postcondition, so this is undecided, not a violation
+            not_reestablished.append('%s: %s — the loop invariant given for the reference tree does not carry over to the changed loop of %s '
+                             '(proof artefact; the postconditions are decided separately)' % (o['name'], o['status'], o.get('function')))
         elif o['name'] in lock and changed:
             # discharged on the reference tree, the function's source text differs now, and the verifier no longer accepts it
             v = Violation(pid, tierc, o['name'], o.get('clause') or o.get('kind', 'obligation'), None, detail, replayable=False)
@@ -138,12 +156,16 @@ def run_property(pid, tier, seed, only_bounded=None, write=True, quiet=False):
         out('  %s tier=%s item=%s clause=%s' % (pid, v.tier, v.item, v.clause))
     for u in undecided:
         out('UNDECIDED %s' % u)
+    for u in not_reestablished:
+        out('NOT-REESTABLISHED %s' % u)
     for e in errors:
         out('CHECKER-ERROR %s' % e)
 
     all_obl = obligations + finite_obl
     n_dis = len([o for o in all_obl if o['status'] == 'discharged'])
     level = spec['level']
+    if not_reestablished and level == 'proof':
+        level = 'exploration'       # this run did not re-establish every proof: what it covered is the bounded exploration
     if spec.get('pyvc') or spec.get('finite'):
         if not all_obl:
             errors.append('zero obligations generated')
@@ -167,7 +189,7 @@ def run_property(pid, tier, seed, only_bounded=None, write=True, quiet=False):
                  + [dict(obligation=o['name'], kind=o.get('kind'), backend=o.get('backend')) for o in all_obl][:3]
                  + [dict(bounded_item=b['item'], case=s) for b in bounded_items for s in b['samples'][:1]][:4]
                  + [dict(bounded_item=b['item'], bound=b['bound'], evaluations=b['evaluations']) for b in bounded_items][:3]),
-        undecided=undecided, checker_errors=errors[:5],
+        undecided=undecided + ['not re-established: ' + u for u in not_reestablished], checker_errors=errors[:5],
         known_findings_hit=sorted(seen),
         tiers=dict(P='proved by generated obligations', F='decided exactly on a finite automaton',
                    B='bounded stand-in, run-time contract on the real function: never counted as proved', A='assumed, see assumptions'),
